@@ -14,6 +14,7 @@ Notation (Model/VonKarman.lean): h(x) = x^(5/6) K_{5/6}(x) (`hK`), h₀ = 2^(−
 C₀ = `covZero` = κ_C/2 · amp, `sfPos` = κ_D · amp · (1 − h(x)/h₀), `sfSat` = κ_D · amp, `covIdeal` = C₀ · h(x)/h₀.
 -/
 import AoVerif.Lemmas.VonKarman
+import AoVerif.Lemmas.ExpKernel
 import AoVerif.Gen.Formulas
 
 namespace AoVerif.Props.C08
@@ -352,7 +353,16 @@ theorem covIdeal_tendsto_covZero (H : H1) (r0 L0 : ℝ) (hL : 0 < L0) :
   rw [div_self h0_pos.ne', mul_one] at h1
   exact h1
 
-/-! ### positive semi-definiteness — under H2 -/
+/-! ### positive semi-definiteness — under H2
+
+READ THIS BEFORE COUNTING THE NEXT THEOREM AS "PSD PROVED".  `PosDefKernel E g` says `0 ≤ Σᵢⱼ cᵢ cⱼ g(dist pᵢ pⱼ)` for
+all finite point sets — which IS positive semi-definiteness of the matrices `g(dist pᵢ pⱼ)`.  `cov_posSemidef` assumes
+it for `g = h(2π(· + 1e-40)/L0)` and concludes it for `phase_covariance = (C₀/h₀)·g` with `C₀/h₀ ≥ 0`: it transports
+the property through the coded formula (constants non-negative, the argument really is `2π(r+1e-40)/L0`), it does NOT
+establish it.  The property clause "every matrix of phase covariances is positive semi-definite" is carried by the
+eigenvalue oracle of `harness/props/c08.py` only (and listed there under `assumptions` as NOT PROVED).
+`H1_H2_jointly_satisfiable` below shows that H1 and H2 can hold together (one `kv`), i.e. that the theorems under these
+hypotheses are not vacuous — nothing more. -/
 
 /-- **every matrix of phase covariances between finitely many points is positive semi-definite**, if the radial
 kernel the code evaluates, r ↦ h(2π(r + 1e-40)/L0), is positive definite on the space `E` the points live in
@@ -522,7 +532,8 @@ example : ∃ kv : ℝ → ℝ → ℝ, @H1 (realTransc kv) := by
     filter_upwards [eventually_gt_atTop 0] with x hx
     exact (hh x hx).symm
 
-/-- H2 is satisfiable on every space: with `kv ν x = x^(−5/6)` the kernel is the constant 1 -/
+/-- H2 alone is satisfiable on every space, trivially: with `kv ν x = x^(−5/6)` the kernel is the constant 1 (this `kv`
+violates H1; the joint witness is `H1_H2_jointly_satisfiable`) -/
 example (E : Type) [PseudoMetricSpace E] (L0 : ℝ) (hL : 0 < L0) : ∃ kv : ℝ → ℝ → ℝ,
     @PosDefKernel E _ (fun r => @hK ℝ _ _ _ (realTransc kv) (@xarg ℝ _ _ _ (realTransc kv) (r + 1e-40) L0)) := by
   refine ⟨fun _ x => 1 / x ^ ((5:ℝ)/6), ?_⟩
@@ -543,6 +554,81 @@ example (E : Type) [PseudoMetricSpace E] (L0 : ℝ) (hL : 0 < L0) : ∃ kv : ℝ
   simp only [hk _ dist_nonneg, mul_one]
   rw [← Finset.sum_mul_sum]
   exact mul_self_nonneg _
+
+/-- **H1 and H2 are JOINTLY satisfiable, by one and the same `kv`** (on the line `E = ℝ`, every `L0 > 0`): with
+`kv ν x = h₀ e^(−x) / x^(5/6)` one has `h(x) = h₀ e^(−x)` on (0,∞), which satisfies H1, and the coded kernel
+`r ↦ h(2π(r + 1e-40)/L0) = h₀ e^(−2π·1e-40/L0) · e^(−(2π/L0) r)` is the exponential (Ornstein–Uhlenbeck) kernel, positive
+definite on ℝ (`exp_kernel_nonneg`).  So the hypothesis set {H1, H2} used by the theorems above is consistent; a joint
+witness on an ARBITRARY pseudo-metric space cannot exist (a non-constant antitone kernel is not positive definite on the
+bipartite metric d(aᵢ,bⱼ)=1, d(aᵢ,aⱼ)=d(bᵢ,bⱼ)=2), which is why `cov_posSemidef` takes H2 for the space at hand. -/
+theorem H1_H2_jointly_satisfiable (L0 : ℝ) (hL : 0 < L0) : ∃ kv : ℝ → ℝ → ℝ,
+    @H1 (realTransc kv) ∧
+    @PosDefKernel ℝ _ (fun r => @hK ℝ _ _ _ (realTransc kv) (@xarg ℝ _ _ _ (realTransc kv) (r + 1e-40) L0)) := by
+  have hc : (0:ℝ) < 2 ^ ((-1:ℝ)/6) * Real.Gamma (5/6) := by
+    have := Real.Gamma_pos_of_pos (show (0:ℝ) < 5/6 by norm_num)
+    positivity
+  generalize hcdef : (2:ℝ) ^ ((-1:ℝ)/6) * Real.Gamma (5/6) = c at hc
+  refine ⟨fun _ x => c * Real.exp (-x) / x ^ ((5:ℝ)/6), ?_, ?_⟩
+  · let _ : Transc ℝ := realTransc (fun _ x => c * Real.exp (-x) / x ^ ((5:ℝ)/6))
+    have hh : ∀ x : ℝ, 0 < x → (hK x : ℝ) = c * Real.exp (-x) := by
+      intro x hx
+      have hx' : 0 < x ^ ((5:ℝ)/6) := by positivity
+      show x ^ (((5:ℕ):ℝ) / ((6:ℕ):ℝ)) * (c * Real.exp (-x) / x ^ ((5:ℝ)/6)) = _
+      simp only [Nat.cast_ofNat]
+      field_simp
+    have h0e : (h0 : ℝ) = c := by
+      show (((2:ℕ):ℝ)) ^ ((-((1:ℕ):ℝ)) / ((6:ℕ):ℝ)) * Real.Gamma (((5:ℕ):ℝ) / ((6:ℕ):ℝ)) = c
+      simp only [Nat.cast_ofNat, Nat.cast_one]
+      exact hcdef
+    refine ⟨?_, ?_, ?_⟩
+    · intro x hx y hy hxy
+      rw [hh x hx, hh y hy]
+      have : Real.exp (-y) ≤ Real.exp (-x) := Real.exp_le_exp.mpr (by linarith)
+      gcongr
+    · rw [h0e]
+      have : Tendsto (fun x : ℝ => c * Real.exp (-x)) (𝓝 0) (𝓝 (c * Real.exp (-0))) :=
+        (continuous_const.mul (Real.continuous_exp.comp continuous_neg)).tendsto 0
+      rw [neg_zero, Real.exp_zero, mul_one] at this
+      refine (this.mono_left nhdsWithin_le_nhds).congr' ?_
+      filter_upwards [self_mem_nhdsWithin] with x hx
+      exact (hh x hx).symm
+    · have : Tendsto (fun x : ℝ => c * Real.exp (-x)) atTop (𝓝 (c * 0)) :=
+        Real.tendsto_exp_neg_atTop_nhds_zero.const_mul c
+      rw [mul_zero] at this
+      refine this.congr' ?_
+      filter_upwards [eventually_gt_atTop 0] with x hx
+      exact (hh x hx).symm
+  · intro n p w
+    have hpi := Real.pi_pos
+    have hk : ∀ r : ℝ, 0 ≤ r →
+        @hK ℝ _ _ _ (realTransc fun _ x => c * Real.exp (-x) / x ^ ((5:ℝ)/6))
+          (@xarg ℝ _ _ _ (realTransc fun _ x => c * Real.exp (-x) / x ^ ((5:ℝ)/6)) (r + 1e-40) L0)
+        = c * Real.exp (-(2 * π * 1e-40 / L0)) * Real.exp (-(2 * π / L0 * r)) := by
+      intro r hr
+      have hx : (0:ℝ) < 2 * π * (r + 1e-40) / L0 := by
+        have : (0:ℝ) < 1e-40 := by norm_num
+        positivity
+      have hx' : 0 < (2 * π * (r + 1e-40) / L0) ^ ((5:ℝ)/6) := by positivity
+      show (((2:ℕ):ℝ) * π * (r + 1e-40) / L0) ^ (((5:ℕ):ℝ) / ((6:ℕ):ℝ))
+        * (c * Real.exp (-(((2:ℕ):ℝ) * π * (r + 1e-40) / L0)) / (((2:ℕ):ℝ) * π * (r + 1e-40) / L0) ^ ((5:ℝ)/6)) = _
+      simp only [Nat.cast_ofNat]
+      rw [mul_assoc c, ← Real.exp_add]
+      have e : -(2 * π * 1e-40 / L0) + -(2 * π / L0 * r) = -(2 * π * (r + 1e-40) / L0) := by ring
+      rw [e]
+      field_simp
+    simp only [Real.dist_eq]
+    have hb : (0:ℝ) ≤ 2 * π / L0 := by positivity
+    have h := exp_kernel_nonneg (2 * π / L0) hb p w
+    have hA : (0:ℝ) ≤ c * Real.exp (-(2 * π * 1e-40 / L0)) := by positivity
+    calc (0:ℝ) ≤ (c * Real.exp (-(2 * π * 1e-40 / L0)))
+            * ∑ i, ∑ j, w i * w j * Real.exp (-(2 * π / L0 * |p i - p j|)) := mul_nonneg hA h
+      _ = _ := by
+        rw [Finset.mul_sum]
+        refine Finset.sum_congr rfl fun i _ => ?_
+        rw [Finset.mul_sum]
+        refine Finset.sum_congr rfl fun j _ => ?_
+        rw [hk _ (abs_nonneg _)]
+        ring
 
 /-- the remaining hypotheses (r ≥ 0, r0 > 0, L0 > 0, c > 0) are plain positivity conditions on the property's domain -/
 example : (0:ℝ) ≤ 0 ∧ (0:ℝ) < 0.2 ∧ (0:ℝ) < 25 ∧ (0:ℝ) < 1.5 := by norm_num
